@@ -104,7 +104,8 @@ class Row(Vector):
 			self._dtype = DataType(object, nullable=True)
 		else:
 			# Check uniformity of column types
-			col_dtypes = [col._dtype for col in table._underlying]
+			# (an untyped empty column has no dtype: it counts as object)
+			col_dtypes = [col._dtype if col._dtype is not None else DataType(object, nullable=True) for col in table._underlying]
 			unique_kinds = {dt.kind for dt in col_dtypes}
 			
 			if len(unique_kinds) == 1:
